@@ -1,9 +1,10 @@
 """Native side: build the lowered C natively, co-execute with the real C++ (transliteration
 validation) and run the oracle (replay of counterexamples on the real code)."""
 import os, re, json, subprocess, time
-from tools.vrun import sh, ROOT, Break
+from tools.vrun import sh, ROOT, WORK, Break
+from tools.cxx2c import REPO
 
-CXXFLAGS = ['-std=c++20', '-O1', '-w', '-DNATIVE', '-I/repo/src', '-I/repo/src/third_party', '-I' + os.path.join(ROOT, 'shim')]
+CXXFLAGS = ['-std=c++20', '-O1', '-w', '-DNATIVE', '-I' + REPO + '/src', '-I' + REPO + '/src/third_party', '-I' + os.path.join(ROOT, 'shim')]
 
 
 def build_c(src_c, out_o, defs=()):
@@ -49,7 +50,7 @@ def trace_values(trace, failure=None):
     return vals, first
 
 
-REPO_BUILD = os.path.join(ROOT, '.work', '_repo_build')
+REPO_BUILD = os.path.join(WORK, '_repo_build')
 
 
 def repo_build(targets=('bloch_runtime', 'bloch_compiler', 'bloch')):
@@ -60,7 +61,7 @@ def repo_build(targets=('bloch_runtime', 'bloch_compiler', 'bloch')):
     with open(os.path.join(REPO_BUILD, '.lock'), 'w') as lk:
         fcntl.flock(lk, fcntl.LOCK_EX)
         if not os.path.exists(os.path.join(REPO_BUILD, 'build.ninja')):
-            rc, out, _ = sh(['cmake', '-G', 'Ninja', '-S', '/repo', '-B', REPO_BUILD, '-DCMAKE_BUILD_TYPE=Release'], log=os.path.join(REPO_BUILD, 'configure.log'), timeout=600)
+            rc, out, _ = sh(['cmake', '-G', 'Ninja', '-S', REPO, '-B', REPO_BUILD, '-DCMAKE_BUILD_TYPE=Release'], log=os.path.join(REPO_BUILD, 'configure.log'), timeout=600)
             if rc != 0:
                 raise Break('NATIVE BUILD BREAK: cmake configure of /repo failed\n' + out[-1000:])
         rc, out, _ = sh(['cmake', '--build', REPO_BUILD, '--target'] + list(targets), log=os.path.join(REPO_BUILD, 'build.log'), timeout=1800)
